@@ -412,7 +412,7 @@ func WorkerMain() int {
 		for _, n := range regOrder {
 			sc := registry[n]
 			b, _ := json.Marshal(map[string]any{"name": n, "props": sc.Props, "quick": sc.Quick, "thorough": sc.Thorough,
-				"level": sc.Level, "desc": sc.Desc, "expect": sc.Expect})
+				"level": sc.Level, "desc": sc.Desc, "expect": sc.Expect, "delay": sc.Opts.Delay})
 			fmt.Println(string(b))
 		}
 		return 0
